@@ -72,7 +72,7 @@ let c02_table : (string * (Z.t list -> Z.t list option)) list = Model.[ "cpp", r
 let c08_table : (string * (Z.t list -> Z.t list option)) list = Model.[ "lkc", run_lkc; "clp", run_clp; "lksel", run_lksel ]
 let c09_table : (string * (Z.t list -> Z.t list option)) list = Model.[
   "l0lastb", run_l0lastb; "l0last", run_l0last; "consumer", run_consumer; "sat", run_sat;
-  "vanish", run_vanish; "starkid", run_starkid ]
+  "vanish", run_vanish; "starkid", run_starkid; "starkshape", run_starkshape ]
 let c10_table : (string * (Z.t list -> Z.t list option)) list = Model.[
   "lkcols", run_lkcols; "psums", run_psums; "lkeval", run_lkeval; "ctleval", run_ctleval; "ctlsum", run_ctlsum ]
 
